@@ -38,8 +38,8 @@ def run(ctx):
                        "instances without any feasible segmentation are outside the statement",
                        "floating point decides the comparison only at exact rational ties (either side accepted)"]
     # J1 + generation for J2 in one exhaustive run
-    scope = dict(max_len=3 if q else 4, max_count=3 if q else 4, max_total=3 if q else 5, epochs=(1, 2, 3, 4),
-                 ks=(1, 2) if q else (1, 2, 3), mcs=(0, 1) if q else (0, 1, 2), mos=(0, 1) if q else (0, 1, 2),
+    scope = dict(max_len=3 if q else 4, max_count=3, max_total=3 if q else 4, epochs=(1, 2, 3, 4),
+                 ks=(1, 2) if q else (1, 2, 3), mcs=(0, 1) if q else (0, 1, 2), mos=(0, 1),
                  offs=(1, 2), variants=VARIANTS, emit=True)
     r = rc.cp_run(ctx, "c26_j1", rc.SOUND_INVARIANTS + ["EmitInv"], workers=8,
                   required=("Pick", "AddCount", "AddOff", "RunFixed", "StartPoisson", "Column"), **scope)
